@@ -51,6 +51,12 @@ Theorem C17_progress : forall (E : Type) (enc : E -> list N) script ds counts,
 Proof. exact @progress. Qed.
 Print Assumptions C17_progress.
 
+(* the theorems above and below cover NewFixedReaddir too: it is NewReaddir over the one-batch script *)
+Theorem C17_fixed : forall (E : Type) (ds : list E),
+  new_fixed_readdir ds = new_readdir [BOk ds] /\ lists_script [BOk ds] ds.
+Proof. exact (fun E ds => conj eq_refl (fixed_lists ds)). Qed.
+Print Assumptions C17_fixed.
+
 (* a read at any other offset is rejected and changes nothing - in every state *)
 Theorem C17_offset : forall (E : Type) (enc : E -> list N) (st : rdst E) count off,
   r_off st <> off -> read enc st count off = (RdBadOff, st).
